@@ -343,6 +343,8 @@ def check_C07(ctx):
     engine_check(ctx, "C07", has_call("delete", "pods"), 7)
     # the walk under API failures: a delete that answers NotFound / Conflict / a server error still ends the pass
     snap_trace(ctx, "faults-pods", "faults-pods", 2, 3, 5, 40000 if ctx.quick else 500000, ["P_C07"], 71)
+    # the current revision must survive history truncation for as long as it is current (else "built from the current revision" is void)
+    snap_trace(ctx, "history", "history", 2, 2, 5, 30000 if ctx.quick else 400000, ["P_C07"], 72)
     # history: with stale caches and several revisions in flight, the current revision never advances early (so that
     # "built from the current revision" keeps its meaning below the partition), one pod at a time
     cluster_check(ctx, ["B_C07"], ["P_C07"], invariants=[], properties=["RollsOneAtATime"], scale=0.5)
@@ -384,6 +386,7 @@ def check_C10(ctx):
     snap_trace(ctx, "adopt", "adopt", 2, 2, 5, 0, ["P_C10"], 14)        # several orphans at once: enumerated completely
     # "objects read from caches are left unmodified" where the controller works on copies it re-reads: identity and
     # storage repairs with API failures (conflict retries in particular), also with the cache entry vanishing
+    snap_trace(ctx, "claims", "claims", 2, 2, 5, 30000 if q else 400000, ["P_C10"], 17)     # claim templates with labels of their own
     snap_trace(ctx, "faults-claims", "faults-claims", 2, 2, 5, 20000 if q else 300000, ["P_C10"], 15)
     snap_trace(ctx, "evict-claims", "evict-claims", 2, 2, 5, 10000 if q else 200000, ["P_C10"], 16)
     if not q:
@@ -399,6 +402,8 @@ def check_C11(ctx):
     q = ctx.quick
     # a pause raised at any moment and lifted later is lossless: same fixed point as the never-paused twin
     cluster_check(ctx, ["B_C11", "B_C02"], ["P_C11"], invariants=[], properties=["Converges"], scale=0.7)
+    # ... also when nothing but the work queue drives the controller: lifting the pause must wake it up
+    cluster_check(ctx, ["B_C11", "B_C02", "B_C16"], ["P_C11"], invariants=[], properties=["Converges"], scale=0.5, queue=True)
     ctx.design("MCOwnership", own_cfg("pods", 2, ["I_C11"]), "own-pods")
     ctx.design("MCOwnership", own_cfg("revs", 2, ["I_C11"]), "own-revs")
     ctx.design("MCSnapshot", mc_snapshot_cfg(1, 2, 5, True, ["I_C11"]), "pods-1ord-del")
@@ -651,9 +656,8 @@ def check_C06(ctx):
     # the label of the revision a pod is built from, with several revisions in flight (current != update, partitions)
     shp, _ = snap_trace(ctx, "pods-3ord", "pods", 2, 3, 5, 30000 if q else 500000, ["P_C06"], 51)
     ctx.design("MCSnapshot", mc_snapshot_cfg(1, 2, 5, False, ["I_C06"]), "pods-1ord")
-    sh1, _ = snap_trace(ctx, "claims", "claims", 2, 2, 5, 80000 if q else 0, ["P_C06"], 50)
-    if not q:
-        ctx.exhaustive = True
+    # (147 M points since the claim cache may lag: sampled in both tiers)
+    sh1, _ = snap_trace(ctx, "claims", "claims", 2, 2, 5, 80000 if q else 1500000, ["P_C06"], 50)
     ctx.add_samples(sh1, 2, has_call("create", "persistentvolumeclaims"))
     # the history clause: over whole behaviours (scale-in, scale-out, restarts, lagging claim cache) claims are created
     # before their pod, once, and never removed or replaced
